@@ -148,3 +148,96 @@ func (c *simClock) advance(d time.Duration) int {
 		synctest.Wait()
 	}
 }
+
+// pendingTimers returns the ids of the armed channel timers in deadline
+// order.
+func (c *simClock) pendingTimers() []int {
+	c.mu.Lock()
+	defer c.mu.Unlock()
+	var ts []*simTimer
+	for _, t := range c.timers {
+		if t.cancel == nil {
+			ts = append(ts, t)
+		}
+	}
+	sort.Slice(ts, func(i, j int) bool {
+		if !ts[i].deadline.Equal(ts[j].deadline) {
+			return ts[i].deadline.Before(ts[j].deadline)
+		}
+		return ts[i].id < ts[j].id
+	})
+	ids := make([]int, 0, len(ts))
+	for _, t := range ts {
+		ids = append(ids, t.id)
+	}
+	return ids
+}
+
+func (c *simClock) deadlineOf(id int) (time.Time, bool) {
+	c.mu.Lock()
+	defer c.mu.Unlock()
+	t, ok := c.timers[id]
+	if !ok {
+		return time.Time{}, false
+	}
+	return t.deadline, true
+}
+
+// deliver fires one armed timer without waiting for quiescence; the
+// clock must already have reached its deadline. It is used to deliver a
+// tick while another goroutine holds the scheduler lock.
+func (c *simClock) deliver(id int) bool {
+	c.mu.Lock()
+	t, ok := c.timers[id]
+	if !ok || t.deadline.After(c.now) {
+		c.mu.Unlock()
+		return false
+	}
+	delete(c.timers, id)
+	now := c.now
+	c.mu.Unlock()
+	t.ch <- now
+	return true
+}
+
+// advanceJustBefore moves the clock to the deadline of the given timer,
+// firing every timer that is due earlier, but leaves that timer armed
+// (due, not yet delivered).
+func (c *simClock) advanceToDeadlineWithoutFiring(id int, afterEach func()) bool {
+	for {
+		dl, ok := c.deadlineOf(id)
+		if !ok {
+			return false
+		}
+		// Fire strictly earlier timers one at a time.
+		c.mu.Lock()
+		var best *simTimer
+		for _, t := range c.timers {
+			if t.id != id && t.deadline.Before(dl) && (best == nil || t.deadline.Before(best.deadline) || (t.deadline.Equal(best.deadline) && t.id < best.id)) {
+				best = t
+			}
+		}
+		if best == nil {
+			if dl.After(c.now) {
+				c.now = dl
+			}
+			c.mu.Unlock()
+			return true
+		}
+		delete(c.timers, best.id)
+		if best.deadline.After(c.now) {
+			c.now = best.deadline
+		}
+		now := c.now
+		c.mu.Unlock()
+		if best.cancel != nil {
+			best.cancel()
+		} else {
+			best.ch <- now
+		}
+		synctest.Wait()
+		if afterEach != nil {
+			afterEach()
+		}
+	}
+}
